@@ -22,10 +22,10 @@ CLAIMED = {
          "Structural part only: item-type exhaustiveness, no panic and no dropped error in the pattern compiler, no unlisted shortcut around the compiler, matcher budget fed from and charged to the quota. The match semantics (pattern x subject) are value-level and not decided.",
          "Trusted: go/ssa; exemption table confirmed against the manual. Not decided: what the matcher returns.",
          "DESIGN.md 3 (R-SIBLING pattern part, R-METER c), 4 (C15)"),
- "C17": ("sibling cross-check on SSA: per-option summaries (alignment, size, default size, wire type) of the three format-interpreting switches and error sets of the three align methods",
-         "Sibling agreement only: pack, unpack and packsize accept the same options with the same alignment, size and wire type, and reject the same alignments. Round-trip equality, %q and number formatting are value-level and not decided.",
-         "Trusted: go/ssa. Not decided: variable-width integer encoding, %q, tostring/tonumber, printf compatibility.",
-         "DESIGN.md 3 (R-SIBLING pack part), 4 (C17)"),
+ "C17": ("sibling cross-check on SSA: per-option summaries (alignment, size, default size, wire type) of the three format-interpreting switches and error sets of the three align methods; who-may-call over static callees of the %q renderer (no Go-syntax quoting function)",
+         "Sibling agreement only: pack, unpack and packsize accept the same options with the same alignment, size and wire type, and reject the same alignments. Round-trip equality and number formatting are value-level and not decided; for %q only that its renderer cannot reach a Go-syntax quoting function (whose escapes the Lua scanner rejects).",
+         "Trusted: go/ssa. Not decided: variable-width integer encoding, the bytes the hand-written %q quoter emits, tostring/tonumber, printf compatibility.",
+         "DESIGN.md 3 (R-SIBLING pack part), 4 (C17), 10.3 (R-QUOTE)"),
  "C13": ("writer/reader schema extraction on SSA (ordered wire-item sequences with Go types from the variadic write/read calls and element loops), struct-field coverage from go/types, tag-set agreement of the two type switches, call-graph reachability from string.dump to map iterations",
          "Structural necessary conditions of the dump/load round trip: the reader takes the fields off the wire in the order and with the types the writer put them there, no field of the prototype is left out, both sides know the same constant tags and prefix, and no map iteration can make two dumps differ. Observational equivalence of the reloaded function is not decided.",
          "Trusted: go/ssa, encoding/binary symmetry. Not decided: constant re-indexing, closure reconstruction, behaviour of the reloaded function.",
